@@ -284,7 +284,8 @@ def real_os_leg(seed, dec, cfg, prog, sim_rc):
     for line in acks.split(b"\n"):
         if line.strip():
             acked = max(acked, int(line))
-    if not expected.startswith(data):
+    data = _remap_uuids(expected, data)
+    if not _is_prefix_upto_cut_uuid(expected, data):
         raise Violation(("real_os_mismatch", {"killed": killed}),
                         "real file after %s holds %r..., the simulated disk of the same program holds %r..." % (
                             "SIGKILL at yield point %d" % k if killed else "normal exit",
@@ -309,6 +310,39 @@ def real_os_leg(seed, dec, cfg, prog, sim_rc):
 def call_of(rc, r):
     c = rc.sent_in.get(key_of(r.msg)) or r.call
     return c[0] if c else None
+
+
+_UUID = None
+
+
+def _remap_uuids(expected, data):
+    """``data`` (what the kernel kept of the child's file) with the child's task uuids replaced by the
+    simulator's, paired by order of first appearance.  (How a process draws its uuids is its own business:
+    the forked child need not repeat the simulated run's.)"""
+    global _UUID
+    import re
+    if _UUID is None:
+        _UUID = re.compile(rb"[0-9a-f]{8}-[0-9a-f]{4}-[0-9a-f]{4}-[0-9a-f]{4}-[0-9a-f]{12}")
+
+    def uniq(b):
+        out = []
+        seen = set()
+        for u in _UUID.findall(b):
+            if u not in seen:
+                seen.add(u)
+                out.append(u)
+        return out
+    eu, du = uniq(expected), uniq(data)
+    mapping = dict(zip(du, eu))
+    return _UUID.sub(lambda m: mapping.get(m.group(0), m.group(0)), data)
+
+
+def _is_prefix_upto_cut_uuid(expected, data):
+    import re
+    if expected.startswith(data):
+        return True
+    # a uuid cut off by the kill at the very end cannot be paired: compare up to where it starts
+    return expected.startswith(re.sub(rb"[0-9a-f-]*$", b"", data))
 
 
 def key_of(m):
@@ -467,7 +501,9 @@ def check_parse(rc, sn, msgs, recs):
             raise Violation(("complete_too_early", {"at": sn.tag}),
                             "crash@%s: task %s reported complete with %d of %d messages on disk" % (
                                 sn.tag, u, len(mine), len(full)))
-        if t.is_complete() != expect_complete:
+        # (the other direction -- everything is there and the parser still says incomplete -- is C09's
+        # statement, checked there; C11 only promises that nothing is reported complete too early)
+        if t.is_complete() and not expect_complete:
             raise Violation(("completeness", {"at": sn.tag}),
                             "crash@%s: task %s is_complete()=%s, expected %s (%d of %d messages on disk)" % (
                                 sn.tag, u, t.is_complete(), expect_complete, len(mine), len(full)))
